@@ -204,17 +204,19 @@ class JCache(BaseCache):
         blob = pickle.dumps(result, protocol=4)
         with storage.file_handle(task.cache_key, 'part1.bin', mode='wb') as f:
             f.write(blob)
+        import hashlib
         with storage.file_handle(task.cache_key, 'part2.txt', mode='w') as f:
-            f.write(digest(result))
+            f.write(hashlib.sha1(blob).hexdigest())
 
     def load_result(self, storage, task):
+        import hashlib
         with storage.file_handle(task.cache_key, 'part1.bin', mode='rb') as f:
-            result = pickle.loads(f.read())
+            blob = f.read()
         with storage.file_handle(task.cache_key, 'part2.txt', mode='r') as f:
             d = f.read()
-        if d != digest(result):
+        if d != hashlib.sha1(blob).hexdigest():
             raise ValueError('JCache entry is inconsistent')
-        return result
+        return pickle.loads(blob)
 
 
 class P2Cache(PickleCache):
@@ -313,3 +315,64 @@ def _pi_run(self):
 PI = _param_type('PI', {'v': Any}, extra_ns={'post_init': _pi_post_init, 'run': _pi_run})
 
 PARAM_TYPES = {c.__name__: c for c in (PV, PW, M3, ZV, JV, P2V, NV, NVX, TV, PI)}
+
+
+# ---------------------------------------------------------------------------------------------------
+# result-shape carriers (C06, C12, C13): run() builds its value from a shape spec
+# ---------------------------------------------------------------------------------------------------
+
+def build_shape(sh):
+    kind = sh[0]
+    if kind == 'none':
+        return None
+    if kind == 'int':
+        return int(sh[1])
+    if kind == 'float':
+        return float.fromhex(sh[1])
+    if kind == 'str':
+        return sh[1]
+    if kind == 'bytes':
+        n, seed = sh[1], sh[2]
+        unit = bytes((seed * 31 + i * 7) % 256 for i in range(251))
+        return (unit * (n // 251 + 1))[:n]
+    if kind == 'list':
+        return [build_shape(x) for x in sh[1]]
+    if kind == 'tuple':
+        return tuple(build_shape(x) for x in sh[1])
+    if kind == 'set':
+        return set(sh[1])
+    if kind == 'dict':
+        return {kv[0]: build_shape(kv[1]) for kv in sh[1]}
+    if kind == 'unpicklable':
+        # picklable data first (sh[1] bytes), then something pickle cannot handle, nested sh[2] levels deep
+        inner = lambda: None   # noqa: E731
+        for _ in range(sh[2]):
+            inner = [inner]
+        return [build_shape(('bytes', sh[1], 3)), inner]
+    raise ValueError(sh)
+
+
+def _rv_run(self):
+    trace(f'S {self.name} {os.getpid()} {os.getppid()} {threading.get_native_id()} {type(self).__name__}')
+    depd = []
+    for dep in walk_tasks(self.deps):
+        depd.append(digest(dep.result))
+    value = {'name': self.name, 'v': build_shape(self.shape), 'deps': depd}
+    hook = os.environ.get('VERIF_RUN_HOOK')
+    if hook:
+        import importlib
+        mod, fn = hook.rsplit(':', 1)
+        getattr(importlib.import_module(mod), fn)(self)
+    trace(f'E {self.name} {type(self).__name__}')
+    return value
+
+
+def _result_type(tname: str, **kw):
+    ns = {'__annotations__': {'name': str, 'shape': Any, 'deps': Any}, 'run': _rv_run, '__module__': MODULE,
+          '__qualname__': tname, 'deps': None}
+    return labtech.task(**kw)(type(tname, (), ns))
+
+
+RV = _result_type('RV')
+RJ = _result_type('RJ', cache=JCache())
+RESULT_TYPES = {'RV': RV, 'RJ': RJ}
